@@ -181,7 +181,6 @@ def translate(source: str) -> str:
     fns = _functions(tree)
     lines = [
         "(* GENERATED by gen/c07_consts.py from myst_parser/parsers/options.py - do not edit. *)",
-        f"(* source sha256: {hashlib.sha256(source.encode()).hexdigest()[:16]} *)",
         "From Coq Require Import List NArith.",
         "Import ListNotations.",
         "Open Scope N_scope.",
